@@ -82,6 +82,11 @@ func (x *XText) UnmarshalJSON(data []byte) error {
 	return jsonx.Unmarshal(data, &x.native)
 }
 
+// MaxTextLength is the length in bytes of the longest text that an operator or function builds out of other texts.
+// Without a limit the length of a text isn't bounded by the size of the expression which builds it: a function which
+// joins its argument to itself doubles it on every call, and each replacement or separator can itself be a long text.
+const MaxTextLength = 1000000
+
 // XTextEmpty is the empty text value
 var XTextEmpty = NewXText("")
 var _ XValue = XTextEmpty
